@@ -68,6 +68,46 @@ def selection_terms(ctx: Context) -> dict:
     return out
 
 
+def selection_stages(t) -> list[str]:
+    """Stages of a selection term from the source outwards."""
+    from sa import collalg
+    out: list[str] = []
+
+    def rec(x):
+        k = x[0]
+        if k == "gen":
+            out.append("walk" if "shard_info_iterator(" in x[1] else
+                       f"gen:{x[1][:30]}")
+        elif k == "filter":
+            rec(x[1])
+            txt = x[2][0]
+            if "custom_metadata_type_limit" in txt:
+                out.append("limit")
+            elif txt.replace(" ", "") in ("shard_filter(_)", ):
+                out.append("filter")
+            else:
+                out.append(f"filter:{txt[:40]}")
+        elif k == "slice":
+            rec(x[1])
+            out.append("first-k" if x[2].replace(" ", "") == ":shards"
+                       else f"slice:{x[2]}")
+        elif k == "map":
+            rec(x[1])
+            out.append("paths" if "file_infos[0].file_path" in x[2]
+                       else f"map:{x[2][:40]}")
+        elif k == "concat":
+            parts = collalg.concat_parts(x)
+            if len(parts) == 1:
+                rec(parts[0])
+            else:
+                out.append(f"concat of {len(parts)}")
+        else:
+            out.append(k)
+
+    rec(t)
+    return out
+
+
 def check_select_order(ctx: Context, rep, rule: str) -> None:
     rep.rule(
         rule,
